@@ -12,6 +12,7 @@ PROP = 'C10'
 HEADER = 'From Coq Require Import List NArith Bool.\nImport ListNotations.\nFrom VDrv Require Import Alloc.\nOpen Scope N_scope.\n'
 COQ_TARGETS = ['props/C10.vo']
 MAXFREE = 128
+KNOWN_KEY = 'buddy-live-page-rehanded'
 KNOWN_BUDDY = 'buddy allocator hands out a physical page that is still live (merge bit not toggled when a block from a higher level is split)'
 
 
@@ -199,7 +200,7 @@ def strip(case):
             'ops': [{k: o[k] for k in keys if k in o} for o in case['ops']]}
 
 
-def run_impl(binary, cases=None, seed=1, n=100):
+def run_impl(binary, cases=None, seed=1, n=100, buddy_every=0):
     tmp = os.path.join(vlib.BUILD, 'c10_%d.json' % os.getpid())
     if cases is not None:
         inp = tmp + '.in'
@@ -207,7 +208,7 @@ def run_impl(binary, cases=None, seed=1, n=100):
         rc, log = vlib.run([binary, '--replay', inp, '--out', tmp])
         os.remove(inp)
     else:
-        rc, log = vlib.run([binary, '--seed', str(seed), '--n', str(n), '--out', tmp])
+        rc, log = vlib.run([binary, '--seed', str(seed), '--n', str(n), '--buddy-every', str(buddy_every), '--out', tmp])
     if rc != 0:
         return None, log
     out = json.load(open(tmp))
@@ -285,7 +286,7 @@ def main(argv):
             cases, log = run_impl(binary, cases=[strip(c) for c in corpus])
             cases = cases or []
             ncorpus = len(cases)
-        gen, log = run_impl(binary, seed=vlib.seed(), n=n)
+        gen, log = run_impl(binary, seed=vlib.seed(), n=n, buddy_every=6)
         if gen is None:
             rep.obligation('harness run', False)
             rep.violation({'broken': 'harness run failed', 'log': log[-4000:]}, nofail=True)
@@ -295,12 +296,17 @@ def main(argv):
     # ---- property monitor on what the implementation did
     bad = [(i, monitor(c)) for i, c in enumerate(cases)]
     bad = [(i, m) for i, m in bad if m]
-    known = [(i, m) for i, m in bad if cases[i].get('buddy')]
-    bad = [(i, m) for i, m in bad if not cases[i].get('buddy')]
+    # known finding (buddy allocator): matcher = a buddy-allocator history whose violation is a physical
+    # page mapped twice / handed out while live.  Random buddy histories are excluded from the monitor
+    # (they only feed the model correspondence); the corpus witness runs every time.
+    def is_known(i, m):
+        return cases[i].get('buddy') and ('mapped twice' in m or 'while live' in m)
+    known = [(i, m) for i, m in bad if is_known(i, m)]
+    bad = [(i, m) for i, m in bad if not is_known(i, m) and not (cases[i].get('buddy') and i >= ncorpus)]
     if known:
-        rep.known_finding(KNOWN_BUDDY + '; witness: ' + known[0][1])
-    rep.obligation('buddy-allocator witness still reproduces (known finding) or buddy histories are clean',
-                   True)
+        i, m = known[0]
+        rep.known_finding('[%s] %s; witness: %s' % (KNOWN_KEY, KNOWN_BUDDY, m), key=KNOWN_KEY,
+                          replay_obj={'property': PROP, 'what': m, 'case': slim(cases[i])})
 
     # ---- correspondence with the model
     lst = [c for c in cases if not c.get('buddy')]
@@ -309,7 +315,7 @@ def main(argv):
     rep.obligation('correspondence (list allocator): %d histories evaluated by the model' % len(lst), okc and not mism)
     okb, mismb, clogb = True, [], ''
     if bud and os.path.exists(os.path.join(vlib.COQ, 'drv', 'Buddy.v')):
-        okb, mismb, clogb = vlib.eval_cases(PROP + 'b', 'From VDrv Require Import Alloc Buddy.\nOpen Scope N_scope.\n',
+        okb, mismb, clogb = vlib.eval_cases(PROP + 'b', 'From Coq Require Import List NArith Bool.\nImport ListNotations.\nFrom VDrv Require Import Buddy.\nOpen Scope N_scope.\n',
                                             [c['coq'] for c in bud], shard_size=32, checker='bmismatches')
         rep.obligation('correspondence (buddy allocator): %d histories evaluated by the model' % len(bud), okb and not mismb)
 
